@@ -261,6 +261,12 @@ class Eval:
         for key in (name, t2r, t2):
             if key in self.hooks:
                 return self.hooks[key](self, c, args)
+        if "__inline__" in self.hooks and name in self.prog.bodies and self.hooks["__inline__"](name):
+            sub = Eval(self.prog, self.prog.bodies[name], self.hooks, args=args)
+            sub.depth = getattr(self, "depth", 0) + 1
+            if sub.depth > 6:
+                raise Unextractable("inlining too deep at %s" % name)
+            return sub.run()
         if t2r in CONTAINER_NEW or t2 in CONTAINER_NEW:
             return Map(CONTAINER_NEW.get(t2r) or CONTAINER_NEW[t2])
         if t2r in ("HashMap::insert", "BTreeMap::insert", "IndexMap::insert"):
